@@ -80,6 +80,16 @@ def table():
     add(kind="obj", name="{b:1}", c=[one_i], keys=[[98]])
     add(kind="obj", name="{a:{}}", c=[e_obj], keys=[[97]])
     add(kind="obj", name="{a:[]}", c=[e_arr], keys=[[97]])
+    # null-valued members versus absent keys
+    add(kind="obj", name="{a:null}", c=[1], keys=[[97]])
+    add(kind="obj", name="{b:null}", c=[1], keys=[[98]])
+    add(kind="obj", name="{a:null,b:1}", c=[1, one_i], keys=[[97], [98]])
+    add(kind="obj", name="{b:1,c:2}", c=[one_i, two_i], keys=[[98], [99]])
+    add(kind="obj", name="{b:1,a:null}", c=[one_i, 1], keys=[[98], [97]])
+    add(kind="arr", name="[{a:null}]", c=[len(vals) - 4])
+    add(kind="arr", name="[{b:null}]", c=[len(vals) - 4])
+    add(kind="arr", name="[null,1]", c=[1, one_i])
+    add(kind="arr", name="[1]-again", c=[one_i])
     return vals
 
 
